@@ -15,17 +15,30 @@ Pick(seq) == seq[RandomElement(1..Len(seq))]
 SimOutcomes(x) == IF EnableFaults THEN {Pick(<<"ok", "ok", "ok", "fail", "crash">>)} ELSE {"ok"}
 PruneOutcomes(x) == IF EnableFaults THEN {Pick(<<"ok", "ok", "ok", "ok", "fail", "crash">>)} ELSE {"ok"}
 
+\* the fault position of a generic step is the operation's OWN mutation (the last one) ...
+OwnAt(o) == IF o = "ok" THEN 0 ELSE InitMuts(disk, mem) + 1
+\* ... and while a lazy initialisation with durable mutations of its own is pending (a snapshot to
+\* consume, a window to complete), steps that hit one of ITS mutations are offered next to them
+InitFaults(x) == IF EnableFaults THEN {Pick(<<"fail", "crash">>)} ELSE {}
+InitAts == 1..InitMuts(disk, mem)
+
 SimNext ==
   IF pc.active THEN \E o \in PruneOutcomes(ops) : PruneStep(o)
   ELSE IF ~alive THEN Restart
-  ELSE \/ \E o \in SimOutcomes(ops) : Store(o)
-       \/ \E o \in SimOutcomes(ops) : Store(o)
-       \/ \E o \in SimOutcomes(ops) : Revert(o)
+  ELSE \/ \E o \in SimOutcomes(ops) : Store(o, OwnAt(o))
+       \/ \E o \in SimOutcomes(ops) : Store(o, OwnAt(o))
+       \/ \E o \in SimOutcomes(ops) : Revert(o, OwnAt(o))
        \/ \E o \in SimOutcomes(ops), n \in R(Nums) : SetL1(n, o)
-       \/ \E o \in SimOutcomes(ops) : Snapshot(o)
+       \/ \E o \in SimOutcomes(ops) : Snapshot(o, OwnAt(o))
        \/ \E end \in R(1..MaxH) : PruneStart(end)
        \/ Restart
-       \/ Query
+       \/ Query("ok", 0)
+       \/ InitMuts(disk, mem) > 0 /\ \E o \in InitFaults(ops), at \in R(InitAts) : Store(o, at)
+       \/ InitMuts(disk, mem) > 0 /\ \E o \in InitFaults(ops), at \in R(InitAts) : Revert(o, at)
+       \/ InitMuts(disk, mem) > 0 /\ \E o \in InitFaults(ops), at \in R(InitAts) : Snapshot(o, at)
+       \/ InitMuts(disk, mem) > 0 /\ \E o \in InitFaults(ops), at \in R(InitAts) : Query(o, at)
+       \* archive-node behaviours (no pruner): the weight of the prune goes to the graceful stop
+       \/ ~EnablePrune /\ \E o \in SimOutcomes(ops) : Snapshot(o, OwnAt(o))
 
 SetToSeq(S) == LET RECURSIVE F(_)
                    F(T) == IF T = {} THEN <<>>
